@@ -34,12 +34,17 @@ structure St where
   post : Bool := false
   es : List Entry := []
   root : Option HashRange := none
-  /-- level 0, 1, … of the model tree (for the path-validity part of the specification) -/
-  lvls : List (List HashRange) := []
   lastIdx : Nat := 0
   lastProof : Option (MerkleProof × Bytes) := none
 
-def St.H (s : St) : Bytes → Bytes := fun b => (s.tbl.get? (Bytes.render b)).getD sentinel
+def hexChars : Array Char := #['0','1','2','3','4','5','6','7','8','9','a','b','c','d','e','f']
+
+/-- Same string as `Bytes.render` (lower-case hex, `-` for empty), built by `String.push`. -/
+def fastHex (b : Bytes) : String :=
+  if b.isEmpty then "-" else
+  b.foldl (fun acc x => (acc.push (hexChars[x.toNat / 16]!)).push (hexChars[x.toNat % 16]!)) ""
+
+def St.H (s : St) : Bytes → Bytes := fun b => (s.tbl.get? (fastHex b)).getD sentinel
 
 def parseHR (w : String) : Option HashRange :=
   match w.splitOn ":" with
@@ -70,24 +75,13 @@ def cmpRes (model : String) (impl : List String) : Verdict :=
   else if hasSentinel model then .diff s!"hash-table-miss model={model}"
   else .diff s!"model={model} impl={i}"
 
-/-- All levels of the model tree, bottom-up. -/
-def allLevels (H : Bytes → Bytes) (post : Bool) : Nat → List HashRange → List (List HashRange)
-  | 0, d => [d]
-  | f + 1, d =>
-    if d.length ≤ 1 then [d] else
-    match levelUp H post d with
-    | none => [d]
-    | some nx => d :: allLevels H post f nx
-
-/-- Does the path of leaf `i` (its ancestors below the root and their siblings) meet a range that
-`isValidRange` rejects? -/
-def pathHasInvalid : List (List HashRange) → Nat → Bool
-  | [], _ => false
-  | [_], _ => false
-  | d :: rest, i =>
-    (match d[i]?, d[sibIndex i]? with
-     | some a, some b => !a.isValid || !b.isValid
-     | _, _ => true) || pathHasInvalid rest (i / 2)
+/-- Does the path of a (committed) proof — the target's ancestors below the root, whose ranges are
+the unions of the ranges below them, and their siblings — meet a range that `isValidRange` rejects? -/
+def pathHasInvalid : Nat → Nat → Nat → List HashRange → Bool
+  | _, _, _, [] => false
+  | i, lo, up, s :: rest =>
+    !(HashRange.isValid ⟨[], lo, up⟩) || !s.isValid ||
+      (if i % 2 = 1 then pathHasInvalid (i / 2) s.lower up rest else pathHasInvalid (i / 2) lo s.upper rest)
 
 /-- The hypothesis of C29 on a leaf set: at least two leaves, sums positive and pairwise distinct,
 largest sum plus padding below 2^64. -/
@@ -101,6 +95,11 @@ def hypOK (es : List Entry) : Bool :=
 def canonIndex : Nat → Int → Nat
   | 0, _ => 0
   | l + 1, idx => (if goOdd idx then 1 else 0) + 2 * canonIndex l (Int.tdiv idx 2)
+
+/-- First `n` in `[lo, lo+count)` with `levels n ≠ v`. -/
+def firstLevelsMismatch (v : Nat) : Nat → Nat → Option Nat
+  | 0, _ => none
+  | count + 1, lo => if levels lo ≠ v then some lo else firstLevelsMismatch v count (lo + 1)
 
 def renderVerdict : Option (Bool × Bool) → String
   | none => "PANIC"
@@ -128,10 +127,7 @@ def step (s : St) (pre post : List String) : St × Verdict :=
       let es : List Entry := lhs.map fun h => ⟨h, h⟩
       let H := s.H
       let m := genRootE H pb es
-      let lv := match structureEntries H es with
-        | some (d, _) => allLevels H pb d.length d
-        | none => []
-      let s' := { s with treeId := tid, post := pb, es := es, root := m.map (·.1), lvls := lv, lastProof := none }
+      let s' := { s with treeId := tid, post := pb, es := es, root := m.map (·.1), lastProof := none }
       let ms := match m with
         | none => "PANIC"
         | some (r, sorted) => s!"{renderHR r} {renderHashes sorted}"
@@ -159,7 +155,7 @@ def step (s : St) (pre post : List String) : St × Verdict :=
       let cix : Option Nat :=
         if pb then (if 0 ≤ ix ∧ ix.toNat < nextPowerOfTwo n then some ix.toNat else none)
         else some (canonIndex nl ix)
-      let (s, committedAt) : St × Option Nat :=
+      let (s, committedAt) : St × Option (Nat × MerkleProof) :=
         match cix with
         | none => (s, none)
         | some c =>
@@ -168,7 +164,7 @@ def step (s : St) (pre post : List String) : St × Verdict :=
           match hp with
           | some (hpf, hleaf) =>
             if hpf.hashRanges = sb ∧ hpf.target = tg ∧ hleaf = lh ∧ s.root = some rt ∧ nl = levels n
-              ∧ (pb = true → hpf.index = ix) then (s, some c) else (s, none)
+              ∧ (pb = true → hpf.index = ix) then (s, some (c, hpf)) else (s, none)
           | none => (s, none)
       let implS := " ".intercalate post
       let impl : Option (Option (Bool × Bool)) :=
@@ -183,8 +179,8 @@ def step (s : St) (pre post : List String) : St × Verdict :=
       | some im =>
         let specV : Verdict :=
           match committedAt with
-          | some c =>
-            if pathHasInvalid s.lvls c then
+          | some (c, hpf) =>
+            if pathHasInvalid c hpf.target.lower hpf.target.upper hpf.hashRanges then
               if im = some (false, true) then .ok else .propfail "zero-width-not-replay" s!"tree={tid} index={ix} kind={kind} impl={implS}"
             else
               if im = some (true, false) then .ok else .propfail "valid-proof-rejected" s!"tree={tid} n={n} index={ix} post={pb} impl={implS}"
@@ -203,16 +199,22 @@ def step (s : St) (pre post : List String) : St × Verdict :=
     match n.toNat? with
     | some k => (s, cmpRes (toString (levels k)) post)
     | none => (s, .bad "lv arg")
+  | ["lvx", n] =>
+    -- beyond 2^48 the float expression is known to fall one short just above a power of two
+    match n.toNat?, post with
+    | some k, [v] =>
+      if v.toNat? = some (levels k) || v.toNat? = some (levels k - 1) then (s, .ok)
+      else (s, .diff s!"levels {k}: model={levels k} impl={v}")
+    | _, _ => (s, .bad "lvx arg")
   | ["lvrun", a, b] =>
     match a.toNat?, b.toNat?, post with
     | some lo, some hi, [v] =>
       match v.toNat? with
       | some vv =>
         -- every n in [lo,hi] (the model is evaluated at each point)
-        let bad := (List.range (hi + 1 - lo)).find? fun d => levels (lo + d) ≠ vv
-        match bad with
+        match firstLevelsMismatch vv (hi + 1 - lo) lo with
         | none => (s, .ok)
-        | some d => (s, .diff s!"levels {lo + d}: model={levels (lo + d)} impl={vv}")
+        | some k => (s, .diff s!"levels {k}: model={levels k} impl={vv}")
       | none => (s, .diff s!"levels [{lo},{hi}]: impl={v}")
     | _, _, _ => (s, .bad "lvrun args")
   | _ => (s, .bad "op")
